@@ -3,6 +3,7 @@
 # Everything happens in a scratch copy under /tmp which is removed afterwards.
 cid=$1; v=$2; shift 2
 src=/tmp/seed-out/$cid/$v
+[ -f "$src/patch.diff" ] || src=/verif/seeded/$cid$v
 checks=${*:-$cid}
 d=$(mktemp -d /tmp/verif-seed.XXXXXX)
 trap 'rm -rf "$d"' EXIT
